@@ -1232,3 +1232,46 @@ seeded("n4-filters-prepended", ["C11"], "N4", [(F, '''            self.filters +
                     "name": name,
                     "description": description,''')], "order reversed on load")
 benign("c11-writer-percent-format", ["C11"], [(F, '''target.write("{}{}\\n".format(self.filter_name_pretext, f["name"]))''', '''target.write("%s%s\\n" % (self.filter_name_pretext, f["name"]))''')])
+
+# --------------------------------------------------------------------------- C06
+seeded("f1-require-after-filters", ["C06", "C11"], {"C06": "F1", "C11": "N4"}, [(F, '''        cmd = self.__gen_require_command()
+        if cmd:
+            cmd.tosieve(target=target)
+            target.write("\\n")
+        for f in self.filters:
+            target.write("{}{}\\n".format(self.filter_name_pretext, f["name"]))''', '''        for f in self.filters[:0]:
+            pass
+        for f in self.filters:
+            target.write("{}{}\\n".format(self.filter_name_pretext, f["name"]))''')])
+seeded("f1-requires-pruned-on-remove", ["C06"], "F1", [(F, '''            if f["name"] == name:
+                self.filters.remove(f)
+                return True''', '''            if f["name"] == name:
+                self.filters.remove(f)
+                if not self.filters:
+                    self.requires = []
+                return True''')])
+seeded("f2-envelope-not-required", ["C06"], "F2", [(F, '''                cmd = commands.get_command_instance("envelope", ifcontrol, False)
+                self.require("envelope")''', '''                cmd = commands.get_command_instance("envelope", ifcontrol, False)''')])
+seeded("f2-action-extension-conditional", ["C06"], "F2", [(F, '''            if action.extension is not None:
+                self.require(action.extension)''', '''            if action.extension is not None and actdef[1:]:
+                self.require(action.extension)''')], "argument-less extension actions lose their require")
+seeded("f3-derivation-values-only", ["C06"], "F3", [(F, '''            if tag in argdef.get("extension_values", {}):
+                self.require(argdef["extension_values"][tag])
+''', '')], ":regex / :count / :seconds lose their require")
+seeded("f4-derivation-call-dropped", ["C06"], "F4", [(F, '''                self.__require_tag_extension(cmd, comp_tag)
+                cmd.check_next_arg("tag", comp_tag, check_extension=False)
+                next_arg_pos = 4''', '''                cmd.check_next_arg("tag", comp_tag, check_extension=False)
+                next_arg_pos = 4''')], "pre-fix behaviour for currentdate")
+seeded("f4-action-tags-unrequired", ["C06"], "F4", [(F, '''                    atype = "tag"
+                    self.__require_tag_extension(action, arg)''', '''                    atype = "tag"''')], "fileinto :flags / vacation :seconds without require")
+seeded("f5a-header-name-unquoted", ["C06"], "F5a", [(F, '''            cmd.check_next_arg("string", self.__quote_if_necessary(condition[0]))''', '''            cmd.check_next_arg("string", condition[0])''')])
+seeded("f5a-action-list-raw", ["C06"], "F5a", [(F, '''                    arg = [self.__quote_if_necessary(item) for item in arg]
+''', '')])
+seeded("f5b-helper-no-escape", ["C06"], "F5b", [(F, '''            return '"%s"' % self.__escape(value)''', '''            return '"%s"' % value''')], "pre-fix behaviour: injection")
+seeded("f5b-exists-inline-no-escape", ["C06"], "F5b", [(F, '''"[%s]" % (",".join('"%s"' % self.__escape(val) for val in c[1:]))''', '''"[%s]" % (",".join('"%s"' % val for val in c[1:]))''')])
+seeded("f5b-escape-order", ["C06"], "F5b", [(F, '''return value.replace("\\\\", "\\\\\\\\").replace('"', '\\\\"')''', '''return value.replace('"', '\\\\"').replace("\\\\", "\\\\\\\\")''')], "quote -> \\\" -> \\\\\" : the quote ends the string again")
+seeded("f6-list-as-dict-key", ["C06"], "F6", [(F, '''                if isinstance(arg, str):
+                    self.check_if_arg_is_extension(arg)''', '''                self.check_if_arg_is_extension(arg)''')], "pre-fix behaviour")
+benign("c06-require-helper-inlined-const", ["C06"], [(F, '''                cmd = commands.get_command_instance("envelope", ifcontrol, False)
+                self.require("envelope")''', '''                cmd = commands.get_command_instance("envelope", ifcontrol, False)
+                self.require(cmd.extension)''')])
